@@ -677,6 +677,14 @@ impl Report {
             });
         }
     }
+    /// False once three violations of this (monitor, class) are kept: callers can then skip expensive work
+    /// (shrinking a witness) for further occurrences, which would be dropped anyway.
+    pub fn wants_violation(&self, monitor: &str, class: &str) -> bool {
+        self.violations.iter().filter(|v| v.monitor == monitor && v.class == class).count() < 3
+    }
+    pub fn violations_total(&self) -> usize {
+        self.violations.len()
+    }
     pub fn note(&mut self, key: &str, v: J) {
         self.notes.insert(key.to_string(), v);
     }
